@@ -58,22 +58,27 @@ Proof. exact leaf_one_value_per_step. Qed.
 Print Assumptions C03_leaf_one_value_per_step.
 
 (* finite data, out-of-sample horizon => finite forecasts, for the naive and polynomial leaves after
-   any updates.  The two excluded configurations are open findings (Refuted.v): drift with a
-   resolved window of length 1, seasonal mean with a window shorter than one season. *)
+   any updates, for EVERY configuration the model's fit accepts: the former exceptions (drift with
+   a single-point window, seasonal mean over less than one season) are now rejected by fit
+   (resolve_wl = Err, see C11_window_length_resolution), so `leaf_values = Ok _` excludes them.
+   `train` = the series the parameters were estimated on, a non-empty part of the observed data. *)
 Theorem C03_leaf_finite_for_finite : forall f train st h vals,
   finite (ys (obs st)) -> sorted_lt (to_relative (cutoff st) h) ->
   all_pos (to_relative (cutoff st) h) ->
-  match f with
-  | FNaive s sp wlo =>
-      1 <= sp /\ (forall w, wlo = Some w -> 1 <= w) /\ 1 <= zlen (ys train) /\
-      zlen (ys train) <= zlen (ys (obs st)) /\
-      ~ (s = SDrift /\ documented_wl s sp wlo (zlen (ys train)) = 1) /\
-      (s = SMean -> sp = 1 \/ sp <= documented_wl s sp wlo (zlen (ys train)))
-  | FPoly _ _ => True
-  end ->
+  1 <= zlen (ys train) <= zlen (ys (obs st)) ->
   leaf_values f train st h = Ok vals -> finite vals.
 Proof. exact leaf_finite. Qed.
 Print Assumptions C03_leaf_finite_for_finite.
+
+(* for whole programs: a non-empty finite training series and finite update batches (no further
+   condition on the configuration, the updates or the refit option) *)
+Theorem C03_run_finite_for_finite : forall f s ups refit h trace idx vals,
+  1 <= zlen (ys s) -> finite (ys s) -> (forall b, In b ups -> finite (snd b)) ->
+  sorted_lt (to_relative (cutoff (run_state s ups)) h) ->
+  all_pos (to_relative (cutoff (run_state s ups)) h) ->
+  model_run (Some f) s ups refit h = (trace, idx, Some (Ok vals)) -> finite vals.
+Proof. exact run_finite. Qed.
+Print Assumptions C03_run_finite_for_finite.
 
 (* shifting every time index of the program by k shifts every cutoff and every forecast label by k
    and leaves the values unchanged *)
